@@ -2,6 +2,7 @@ package lhsim
 
 import (
 	"context"
+	"errors"
 	"fmt"
 	"sort"
 	"time"
@@ -150,7 +151,7 @@ func (w *World) realTimerBefore(t time.Duration) bool {
 func (w *World) genesis(n *Node) {
 	w.noteUpdateState(n, 0, true)
 	lh, ctx := n.lh, n.ctx
-	go lh.UpdateState(ctx, nil, nil)
+	go w.guardAPI("UpdateState", func() { _ = lh.UpdateState(ctx, nil, nil) })
 	w.quiesce()
 }
 
@@ -454,11 +455,11 @@ func (w *World) restart(n *Node) bool {
 	lh, ctx := n.lh, n.ctx
 	if sb == nil {
 		w.noteUpdateState(n, 0, true)
-		go lh.UpdateState(ctx, nil, nil)
+		go w.guardAPI("UpdateState", func() { _ = lh.UpdateState(ctx, nil, nil) })
 	} else {
 		w.noteUpdateState(n, sb.block.H, true)
 		blk, proof := sb.block, sb.proof
-		go lh.UpdateState(ctx, blk, proof)
+		go w.guardAPI("UpdateState", func() { _ = lh.UpdateState(ctx, blk, proof) })
 	}
 	w.quiesce()
 	return true
@@ -640,7 +641,12 @@ func (w *World) syncTo(n *Node, target *StoredBlock, th uint64, label string) bo
 		ctx, release = context.WithCancel(ctx)
 		w.probe("updatestate-with-call-context")
 	}
-	go func() { e := lh.UpdateState(ctx, blk, proof); release(); done <- e }()
+	go func() {
+		e := errors.New("panicked")
+		w.guardAPI("UpdateState", func() { e = lh.UpdateState(ctx, blk, proof) })
+		release()
+		done <- e
+	}()
 	w.stimNode = n
 	w.quiesce()
 	w.stimNode = nil
